@@ -213,7 +213,8 @@ PROPS = {
     'C11': dict(
         modules=['Resonate.Properties.C11'],
         tie_filter=r'promiseSelectAll|promiseUpdate|taskSelectAll|taskUpdate|lockTimeout|scheduleSelectAll|scheduleUpdate|taskSelectEnqueueable|shape|wiring',
-        harness=[sysdiff('sysdiff-converge', None, (20, 100), (400, 150), 'C11,C01', ['-smallcfg', '-routed', '50', '-fail', '10', '-crash', '1', '-known', 'F16,F5'], (120, 120))],
+        harness=[sysdiff('sysdiff-converge', None, (20, 100), (400, 150), 'C11,C01', ['-smallcfg', '-routed', '50', '-fail', '10', '-crash', '1', '-known', 'F16,F5'], (120, 120)),
+                 dict(bin='stackrun', name='stackrun', quick=['-rounds', '45'], thorough=['-rounds', '1000'], search=['-rounds', '300'])],
         rule=SYS_RULE + '; after every script the clients stop and the server idles: each cycle advances the clock by the signal timeout and then ticks until nothing is in flight (every hand-off succeeds, '
              'no injected failure); batch sizes (promise / schedule / task 1..100), pool and queue sizes (down to 1), enqueue delay and signal timeout are drawn per script; the C11 monitor gives every '
              'item that needs attention (promise pending past its timeout, lock past its lease, enqueued / claimed task past its lease or timeout) a deadline in cycles when it is first seen — '
